@@ -3,6 +3,7 @@ package jsonrpc2
 import (
 	"context"
 	"encoding/json"
+	"errors"
 	"fmt"
 	"net"
 	"sync"
@@ -189,6 +190,9 @@ func (r *Remote) Call(ctx context.Context, result interface{}, method string, pa
 	resp, err := r.receiveFrom(ctx, key, ch)
 	if err != nil {
 		return err
+	}
+	if resp.Response == nil {
+		return errors.New("jsonrpc2: reply has neither result nor error")
 	}
 	return resp.UnmarshalResult(result)
 }
